@@ -65,3 +65,63 @@ impl Src {
 pub fn canon<T: std::fmt::Debug>(v: &T) -> String {
     format!("{:?}", v).chars().filter(|c| !c.is_whitespace()).collect()
 }
+
+
+/// The other entry points of an iterator must agree with repeated next(): nth(k), skip(k).next(), step_by(2), count(),
+/// last(), size_hint(), fold.  `mk` makes a fresh iterator, `show` renders an item.  Returns the disagreements.
+pub fn iter_alt<T, I: Iterator<Item = T>>(mk: &dyn Fn() -> I, show: &dyn Fn(T) -> String) -> Vec<String> {
+    let mut bad = Vec::new();
+    let mut reference: Vec<String> = Vec::new();
+    let mut it = mk();
+    for _ in 0..2000 {
+        match it.next() {
+            Some(x) => reference.push(show(x)),
+            None => break,
+        }
+    }
+    // fused at the end
+    if it.next().is_some() {
+        bad.push("next-after-None".to_string());
+    }
+    let n = reference.len();
+    for k in 0..=n + 1 {
+        let a = mk().nth(k).map(|x| show(x));
+        let b = mk().skip(k).next().map(|x| show(x));
+        let want = reference.get(k).cloned();
+        if a != want {
+            bad.push(format!("nth{}", k));
+        }
+        if b != want {
+            bad.push(format!("skip{}", k));
+        }
+        // nth after some next()s
+        if k >= 1 {
+            let mut i2 = mk();
+            i2.next();
+            let c = i2.nth(k - 1).map(|x| show(x));
+            if c != want {
+                bad.push(format!("next+nth{}", k));
+            }
+        }
+    }
+    let stepped: Vec<String> = mk().step_by(2).map(|x| show(x)).collect();
+    let want: Vec<String> = reference.iter().step_by(2).cloned().collect();
+    if stepped != want {
+        bad.push("step_by2".to_string());
+    }
+    if mk().count() != n {
+        bad.push("count".to_string());
+    }
+    if mk().last().map(|x| show(x)) != reference.last().cloned() {
+        bad.push("last".to_string());
+    }
+    let (lo, hi) = mk().size_hint();
+    if lo > n || hi.map(|h| h < n).unwrap_or(false) {
+        bad.push("size_hint".to_string());
+    }
+    let folded = mk().fold(0usize, |a, _| a + 1);
+    if folded != n {
+        bad.push("fold".to_string());
+    }
+    bad
+}
